@@ -17,7 +17,7 @@ Print Assumptions C07_holds.
 (* the hypotheses of C07_holds are satisfiable by a non-trivial case (absent directory with a
    symbolic mod=, block device 8:300 with an xattr, 300-byte symlink) *)
 Theorem C07_domain_inhabited : C07.wf example_case = true /\ C07.kf example_case = 0
-  /\ (exists hs, fst (C07.model example_case) = ROutput hs /\ length hs = 3%nat).
+  /\ (exists hs, fst (fst (C07.model example_case)) = ROutput hs /\ length hs = 3%nat).
 Proof. exact example_wf. Qed.
 Print Assumptions C07_domain_inhabited.
 
